@@ -10,8 +10,17 @@
 (* result.  After the first disagreement of a scenario the scenario is     *)
 (* `dead` (its remaining events are skipped) and its line joins `bad`.     *)
 (* Finalize failures are nondeterministic in the code (Go map order): the  *)
-(* specification then adopts the logged code / dangling maps after         *)
-(* checking FailureAllowed.                                                *)
+(* specification then adopts the logged code after checking                *)
+(* FailureAllowed.                                                         *)
+(*                                                                         *)
+(* Only what the PUBLIC API shows is compared (Bytes, Len, PC, flags,      *)
+(* label addresses, base, Cap, listings, Finalize result).  The private    *)
+(* listing records and dangling-reference tables that the hook also logs   *)
+(* are NOT compared: the specification keeps its own, and the properties   *)
+(* speak about outputs.  The operand bytes of label references that have   *)
+(* not been finalized successfully are left open (OperandPositions): no    *)
+(* property fixes a placeholder value, so an implementation may resolve    *)
+(* backward references eagerly.                                            *)
 (***************************************************************************)
 EXTENDS Emitter, Json
 
@@ -32,9 +41,14 @@ SameFn(f, g) == DOMAIN f = DOMAIN g /\ \A k \in DOMAIN f : f[k] = g[k]
 A(cond, name) == IF cond THEN {} ELSE {name}
 ProjWhy(e, x) ==
   A(x.n = (IF e.cap < 0 THEN 0 ELSE N(e)), "n") \cup A(x.addr = e.addr, "addr") \cup A(x.base = e.base, "base")
-  \cup A(x.baseSet = e.baseSet, "baseSet") \cup A(x.flags = e.flags, "flags")
-  \cup A(SameFn(x.labels, e.labels), "labels") \cup A(SameFn(x.d8, e.d8), "d8") \cup A(SameFn(x.d16, e.d16), "d16")
-  \cup A(x.nl = Len(e.lines), "lines")
+  \cup A(x.flags = e.flags, "flags") \cup A(SameFn(x.labels, e.labels), "labels")
+
+\* real bytes vs the specification's, operand bytes of unresolved label references left open;
+\* `off` = index in the specification's code of the first compared byte, minus one
+\* (the address of code index i is addr - N + i - 1 both in an original and in a clone, whose code starts at the split)
+OperandAddrs(e) == { r[2] : r \in RefSet(e.d8) } \cup { r[2] : r \in RefSet(e.d16) } \cup { r[2] + 1 : r \in RefSet(e.d16) }
+EqOpen(real, e, off) == LET open == OperandAddrs(e) IN
+  \A i \in 1..Len(real) : (e.addr - N(e) + off + i - 1) \in open \/ real[i] = e.code[off + i]
 
 RefusalKind(old, x) ==      \* why the specification refuses this call (or "none")
   IF x.m = "Label" THEN (IF x.a[1] \in DOMAIN old.labels THEN "label" ELSE "none")
@@ -48,13 +62,12 @@ CallWhy(old, x) ==
       rk == RefusalKind(old, x)
   IN IF x.refused # r.refused THEN {"refused_" \o (IF rk = "none" THEN "spurious" ELSE rk)}
      ELSE ProjWhy(r.e, x)
-          \cup A(old.cap >= 0 => x.bytes = SubSeq(r.e.code, N(old) + 1, N(r.e)), "bytes")
-          \cup A(LogLines(x.lines) = SubSeq(r.e.lines, Len(old.lines) + 1, Len(r.e.lines)), "lines")
+          \cup A(old.cap >= 0 => (Len(x.bytes) = N(r.e) - N(old) /\ EqOpen(x.bytes, r.e, N(old))), "bytes")
           \cup A((x.m = "Label" /\ ~r.refused) => x.ret = r.ret, "ret")
 
+CodeOK(e, code) == e.cap >= 0 => (Len(code) = Len(e.code) /\ EqOpen(code, e, 0))
 StateWhy(e, x) ==
-  ProjWhy(e, x) \cup A(x.cap = e.cap, "cap") \cup A(x.gen = e.gen, "gen")
-  \cup A(e.cap >= 0 => x.code = e.code, "code") \cup A(LogLines(x.lines) = e.lines, "lines")
+  ProjWhy(e, x) \cup A(x.cap = e.cap, "cap") \cup A(CodeOK(e, x.code), "code")
 
 \* listing items as logged by the harness parsers: {t, addr (-1 when the format shows none), bytes, txt}
 HexItems(e)  == [i \in 1..Len(e.lines) |-> LET ln == e.lines[i] IN
@@ -68,7 +81,10 @@ ItemsEq(xs, ys, useTxt) == /\ Len(xs) = Len(ys)
                                                     /\ (useTxt /\ ys[i].t \in {"comment", "label"} => xs[i].txt = ys[i].txt)
 \* domain of C15: "a program that fit in the buffer" (after a refused call the listing records may
 \* already describe bytes that were never stored) with listing generation on
-ListingOK(e, x) == (e.fit /\ e.cap >= 0) =>
+\* The listed bytes are compared with the REAL Bytes() logged with the event (x.code, itself checked against the
+\* specification's code by the "code" aspect); where each line sits and how long it is comes from the specification.
+ListingOK(e0, x) == (e0.fit /\ e0.cap >= 0 /\ Len(x.code) = Len(e0.code)) =>
+  LET e == [e0 EXCEPT !.code = x.code] IN
   /\ ~x.panic /\ ~x.changed
   /\ ListingReadable(e)
   /\ ItemsEq(x.items, IF x.k = "hex" THEN HexItems(e) ELSE TextItems(e), TRUE)
@@ -102,12 +118,13 @@ Why(x) ==
     [] x.k = "finalize" -> LET e == em[x.id] IN
                            IF FinalizeOK(e)
                            THEN A(x.err.class = "none", "finalize_spurious_error")
-                                \cup A(x.code = Patched(e), "finalize_patch") \cup A(EmptyFn(x.d8) /\ EmptyFn(x.d16), "finalize_dangling")
+                                \cup A(x.code = Patched(e), "finalize_patch")
                            ELSE A(x.err.class # "none", "finalize_missed_error")
                                 \cup A(x.err.class = "none" \/ FailureAllowed(e, x.code, x.err), "finalize_failure_effects")
     [] x.k = "clone"    -> {}
     [] x.k = "append"   -> A(x.refused = AppendEm(em[x.id], em[x.from]).refused, "append_refusal")
-    [] x.k \in {"hex", "text"} -> A(ListingOK(em[x.id], x), "listing")
+    [] x.k \in {"hex", "text"} -> A(ListingOK(em[x.id], x), "listing") \cup A(CodeOK(em[x.id], x.code), "code")
+    [] x.k = "twin"     -> { "twin_" \o k : k \in { k \in DOMAIN x.same : ~x.same[k] } }
     [] x.k = "cpu"      -> A(CpuOK(em[x.id], x), "cpu")
     [] x.k = "decode"   -> A(DecodeOK(x), "decode")
     [] OTHER            -> {"unknown_event"}
@@ -119,7 +136,7 @@ NextEm(x) ==
     [] x.k = "call"     -> Upd(em, x.id, Call(em[x.id], [m |-> x.m, a |-> x.a]).e)
     [] x.k = "finalize" -> LET e == em[x.id] IN
                            Upd(em, x.id, IF FinalizeOK(e) THEN FinalizeSuccess(e)
-                                         ELSE [e EXCEPT !.code = x.code, !.d8 = x.d8, !.d16 = x.d16])
+                                         ELSE [e EXCEPT !.code = x.code])
     [] x.k = "clone"    -> Upd(em, x.id, Clone(em[x.from], x.cap))
     [] x.k = "append"   -> Upd(em, x.id, AppendEm(em[x.id], em[x.from]).e)
     [] OTHER            -> em
